@@ -189,6 +189,7 @@ class Check(object):
         self.drift = 0
         self.replayed = 0
         self.witnesses = {}
+        self.outcomes = {}
 
     # ---- TLC model checking of an implementation spec against its contract
     def mc(self, module, cfg, workers=16, timeout=1800, **kw):
@@ -214,6 +215,17 @@ class Check(object):
             self.machinery_errors.append("engine failure in %s %s: %s" % (t["scen"], json.dumps(t["params"])[:300],
                                                                           str(r["failure"])[:1500]))
         good = [(t, r) for t, r in zip(tasks, results) if r["ok"]]
+        for t, r in good:
+            oc = r.get("outcome") or "none"
+            self.outcomes[oc] = self.outcomes.get(oc, 0) + 1
+            # a crashed harness thread or a truncated execution must not silently become a verdict
+            crashed = [x for x in (r.get("thread_excs") or []) if x[0] == "main"]
+            if crashed and len(self.machinery_errors) < 5:
+                self.machinery_errors.append("scenario main thread crashed in %s %s: %s" % (
+                    t["scen"], json.dumps(t["params"])[:300], crashed[0][1][:300]))
+            if oc == "max-steps" and len(self.machinery_errors) < 5:
+                self.machinery_errors.append("execution truncated at the step budget in %s %s" % (
+                    t["scen"], json.dumps(t["params"])[:300]))
         traces = [r["trace"] for _, r in good]
         verdicts, wall = tlc.validate_traces(trace_module, traces) if traces else ([], 0)
         self.evaluations += len(good)
@@ -304,6 +316,7 @@ class Check(object):
             "exhaustive": bool(self.exhaustive and self.mc_runs),
             "mc_runs": self.mc_runs, "model_drift": self.drift, "spec_behaviours_replayed": self.replayed,
             "known_findings_seen": self.known_seen, "witnesses": self.witnesses,
+            "execution_outcomes": self.outcomes,
         }
         cov.update(self.notes)
         ev = {"property_id": self.prop, "tier": self.tier, "seed": self.seed, "level": self.level,
